@@ -28,11 +28,72 @@ def check_C08(tier, seed):
              "partition files, WAL ids, cursor and accounted WAL size")
 
 
+HIST_RULE = ("seeded histories of 3..12 operations over {ingest into 1..3 tables, burst of ingests, force_flush, evict_cache, "
+             "restart} on an on-disk database, every lifetime in its own process; partition_combine_factor in {0,1,4,999}, "
+             "io_threads and wal_flush_compaction_threads in {1,4}, max_partition_size_bytes in {1,40,8Mi}; a case is "
+             "non-trivial when it contains a flush or a restart; after every step the model must predict table content, both "
+             "catalogue listings, partition layout, buffer lengths, column-name sets, durable catalogue entries, partition "
+             "files, WAL ids, cursor and accounted WAL size; ")
+
+
+def check_C18(tier, seed):
+    return standard_check(
+        "C18", tier, seed, "store", ["c18_history"],
+        trusted=STORE_TRUSTED,
+        assumptions=["no crash between the effects of a flush (C09)", "table names are file-system safe (C15)",
+                     "liveness of the background trigger is fairness-conditional: the model says the trigger condition "
+                     "holds whenever ingestion is blocked; that the blocked call then returns is observed by the harness "
+                     "under a deadline"],
+        rule=HIST_RULE + "classes: cycles (ingest/flush cycles), cycles-bgflush (max_wal_files in {0,1,2}, "
+             "max_wal_size_bytes in {1,300,700}: ingestion blocks until the background flush ran); oracle without model: "
+             "after every step the directory holds exactly the catalogue file, the partition files the durable catalogue "
+             "names and the log segments from the cursor on; after a completed flush no segment and wal_size = 0")
+
+
+def check_C07(tier, seed):
+    return standard_check(
+        "C07", tier, seed, "store", ["c07_history"],
+        trusted=STORE_TRUSTED,
+        assumptions=["the column-level rebuild (column::decode + ColumnBuffer::push_* + finalize) is abstracted to: columns "
+                     "outside Table.column_names are dropped, NULL cells of a partially-NULL column are lost (F1); the "
+                     "byte-level encoders are C01's"],
+        rule=HIST_RULE + "classes: dense, absent-columns (column sets change at partition boundaries), nulls-no-compaction, "
+             "nulls-compaction (known finding F1), hex-strings (F2), compressible-strings (F28); oracle without model: "
+             "content after every maintenance step = content before = acknowledged rows; partition ranges tile [0,n)")
+
+
 CHECKS = {
+    "C07": check_C07,
     "C08": check_C08,
+    "C18": check_C18,
 }
 
 CLAIMED = {
+    "C18": dict(
+        text="Machine-checked proof (Coq 8.16) over the persistence model that after every completed flush of any reachable "
+             "state - any compaction factor, any size oracle - no log segment remains, the accounted log size is 0, the "
+             "catalogue holds the new cursor and every table directory holds exactly one file per partition the catalogue "
+             "lists (no file of a merged-away partition, nothing pending deletion); between flushes the log holds one "
+             "segment per ingestion whose sizes add up to the accounted size; a blocked ingestion implies the background "
+             "trigger condition and no ingestion is blocked right after a flush; a flush cannot trip over its own "
+             "bookkeeping (frozen buffer, missing file/segment on removal, compaction range). Tied to the code by the history "
+             "differential including the recursive directory listing after every step.",
+        note="Temp files and intermediate directory states are C09. Liveness (the blocked call returns) is observed under a "
+             "deadline, not proved.",
+        technique="Coq invariant proof over operation histories + history/directory correspondence with hooks",
+        design_ref="5/C18"),
+    "C07": dict(
+        text="Machine-checked proof (Coq 8.16) that in every reachable state of the persistence model partition ranges tile "
+             "[0, next_partition_offset) with unique ids, that plan_compaction always selects a non-empty suffix in offset "
+             "order, that every maintenance operation (flush with batching and compaction for any factor and size oracle, "
+             "eviction, restart) leaves every table's rows, order, cells and columns unchanged, and that a reload reads "
+             "exactly the partition's rows; for the faithful model the statement is refuted by the F1 witness (a = [10, NULL], "
+             "one flush with factor 0 gives [10, 0]), which is replayed on the implementation.",
+        note="Content preservation is proved for the guarded run (compaction stops at the F1 / F3 sites). F2 (hex-packed "
+             "strings: todo!()) and F28 (LZ4-compressed packed strings) are column-encoding defects found by the "
+             "correspondence run, not modelled.",
+        technique="Coq invariant proof over operation histories + refutation witness + history correspondence",
+        design_ref="5/C07"),
     "C08": dict(
         text="Machine-checked proof (Coq 8.16) over an executable model of the persistence protocol (ingest with catalogue "
              "rows in the same segment, WAL flush with batching / compaction / catalogue replacement / deletions, restart "
